@@ -4,7 +4,7 @@ import calendar
 
 from ..core import AnalysisError, dotted, call_name, src, walk_local, const_value
 from ..flow import edge_facts, leaves
-from ..rules import flow_of, state_writes, facts_at, canon, cmp_norm, calls_in, bind_args, collect_list, specialise, norm_items
+from ..rules import flow_of, state_writes, facts_at, canon, cmp_norm, calls_in, bind_args, collect_list, specialise, norm_items, list_extensions
 from ..units import check_units
 from ..tables import UNITS
 
@@ -231,7 +231,7 @@ def rule_wrap(ck, rid="C17.S1"):
         ck.require(not walked, rid, f, apps[0][1], ok="second halves added to the schedule list", bad="the schedule list is extended while it is being iterated", sink="wrap-extend")
     elif apps:
         lst = canon(apps[0][1].func.value)
-        ext = [(n, c) for n, c in calls_in(fl, "extend") if canon(c.func.value) == "self._schedule" and c.args and canon(c.args[0]) == lst]
+        ext = [(n, v) for n, v in list_extensions(fl, "self._schedule") if canon(v) == lst or (isinstance(v, ast.Call) and call_name(v) in ("list", "tuple") and v.args and canon(v.args[0]) == lst)]
         ck.require(len(ext) == 1, rid, f, ext[0][1] if ext else "self._schedule.extend(to_add)", ok="second halves added to the schedule list", bad="the second halves are never added to the schedule list",
                    sink="wrap-extend")
     # other modifications of end/start inside the branch
